@@ -135,7 +135,7 @@ def run(ctx):
                     try:
                         s.write(path)
                     except Exception as exc:
-                        ctx.violation('write-raised:' + a, 'SED.write raised for a supported unit: %r' % (exc,), {'unit': a})
+                        ctx.raised(exc, 'write-raised:' + a, 'SED.write raised for a supported unit: %r' % (exc,), {'unit': a})
                         continue
                     fs, es = f[:, ::-1], e[:, ::-1]          # SED.write stores by increasing frequency
                     wav_s, nu_s = wav[::-1], nu[::-1]
@@ -172,7 +172,7 @@ def run(ctx):
                     try:
                         r = SED.read(path, unit_flux=UNITS[b][0], order=order)
                     except Exception as exc:
-                        ctx.violation('read-raised:%s:%s' % (a, 'write' if spelling == '<SED.write>' else 'own'),
+                        ctx.raised(exc, 'read-raised:%s:%s' % (a, 'write' if spelling == '<SED.write>' else 'own'),
                                       'SED.read raised for supported units: %r' % (exc,), wit)
                         continue
                     ctx.event('read:matrix')
@@ -245,7 +245,7 @@ def run(ctx):
                         fb = helpers.convert_flux(nu, fa, UNITS[b][0], distance=dq)
                         back = helpers.convert_flux(nu, fb, UNITS[a][0], distance=dq)
                     except Exception as exc:
-                        ctx.violation('convert-raised:%s->%s' % (a, b), 'convert_flux raised for supported units: %r' % (exc,), {'from': a, 'to': b})
+                        ctx.raised(exc, 'convert-raised:%s->%s' % (a, b), 'convert_flux raised for supported units: %r' % (exc,), {'from': a, 'to': b})
                         continue
                     ctx.event('roundtrip:ABA')
                     if not O.close(back.to(UNITS[a][0]).value, f, 1e-12):
